@@ -203,10 +203,15 @@ class Lower:
             raise Unsupported("call %s" % e[1])
         if k == "mcall":
             # F::from(1.).unwrap()
-            if e[2] == "unwrap" and e[1][0] == "call" and e[1][1] == "F::from" and len(e[1][2]) == 1 and e[1][2][0][0] == "num":
-                lit = e[1][2][0][1].replace("_", "")
+            if e[2] == "unwrap" and e[1][0] == "call" and e[1][1] == "F::from" and len(e[1][2]) == 1:
+                a = e[1][2][0]
+                neg = a[0] == "neg"
+                if neg: a = a[1]
+                if a[0] != "num":
+                    raise Unsupported("F::from of a non-literal")
+                lit = a[1].replace("_", "")
                 if float(lit) == 1.0:
-                    return "(@Bone prec emax Hp Hpe)"
+                    return "(Bopp (@Bone prec emax Hp Hpe))" if neg else "(@Bone prec emax Hp Hpe)"
                 raise Unsupported("literal %s" % lit)
             if e[2] == "sqrt" and not e[3]:       # correctly rounded IEEE operation, not libm
                 return "(Bsqrt mode_NE %s)" % self.go(e[1])
@@ -269,6 +274,22 @@ def sel_assign(lhs):
     return f
 
 
+def sel_field_init(name):
+    """initialiser of field `name` in a struct literal: `{ …, name: <expr>, … }`"""
+    def f(body):
+        v = vals(body)
+        for i in range(1, len(v) - 1):
+            if v[i] == name and v[i + 1] == ":" and v[i - 1] in ("{", ","):
+                j, d = i + 2, 0
+                while j < len(v) and not (d == 0 and v[j] in (",", "}")):
+                    if v[j] in ("(", "[", "{"): d += 1
+                    elif v[j] in (")", "]", "}"): d -= 1
+                    j += 1
+                return body[i + 2:j]
+        raise Unsupported("no field initialiser %s" % name)
+    return f
+
+
 def sel_block_tail_after(prefix, else_branch=False):
     """trailing expression of the first block `{ … }` that follows the token sequence `prefix` (or of its `else { … }` block)"""
     def block_end(v, j):
@@ -322,6 +343,9 @@ SITES = [
     ("dirichlet_stick_out", "multi/dirichlet.rs", "DirichletFromBeta", "sample_to_slice", sel_assign(["*", "s"])),
     ("dirichlet_stick_acc", "multi/dirichlet.rs", "DirichletFromBeta", "sample_to_slice", sel_assign(["acc"])),
     ("triangular_sample", "triangular.rs", "Triangular", "sample", lambda body: body),
+    ("exp_new_lambda_inverse", "exponential.rs", "Exp", "new", sel_field_init("lambda_inverse")),
+    ("weibull_new_inv_shape", "weibull.rs", "Weibull", "new", sel_field_init("inv_shape")),
+    ("pareto_new_inv_neg_shape", "pareto.rs", "Pareto", "new", sel_field_init("inv_neg_shape")),
     ("exp_sample", "exponential.rs", "Exp", "sample", sel_tail),
     ("weibull_sample", "weibull.rs", "Weibull", "sample", sel_tail),
     ("pareto_sample", "pareto.rs", "Pareto", "sample", sel_tail),
